@@ -1,11 +1,78 @@
 (* C01 -- property theorems only. *)
 From Coq Require Import QArith Qabs ZArith List Arith Bool.
 Import ListNotations.
-From PD Require Import Model.Grid Model.Render Model.RenderSym Model.LocateSym Proofs.C01.
+From PD Require Import Model.Grid Model.Render Model.RenderSym Model.Locate Model.LocateSym Model.Ball Model.Overlap
+  Proofs.LocateCart Proofs.BallLift Proofs.C01.
 Local Open Scope Q_scope.
 
-(* polar / spherical grids: a centred droplet with dr/2 < R <= R_out: one droplet at the origin whose radius is
-   within half a radial spacing of R; exactly the cells whose centres it covers are counted *)
+(* ===== Cartesian grids of any dimension =====
+   g: the grid; lab: the label image scipy.ndimage.label returns for the rendered image (oracle; LabelSpecImg is
+   its specification: equal non-zero labels <=> face-connected inside the box; wf_img: one entry per cell, labels
+   1..n all occur); mask_is_ball / mask_is_emulsion: the image is the rendered (sharp) droplet / emulsion
+   (Model/Render.v `inside`, proved equal to the implementation's image by the C03/C01 correspondence);
+   candidates g lab: the droplets (position in grid coordinates, volume) found before overlap removal. *)
+
+(* one droplet, no periodic axis, droplet inside the box (fits), covering at least one cell centre *)
+Theorem C01_cartesian_single : forall g c r lab,
+  let img := mk_limage (gshape g) lab in
+  grid_ok g -> nonper g -> fits g c r -> ball_cells g c r <> [] ->
+  wf_img g img -> LabelSpecImg img -> mask_is_ball g c r img ->
+  num_labels img = 1%nat /\
+  exists pos vol, candidates g lab = [(pos, vol)] /\
+    vol == cell_volume g * inject_Z (Z.of_nat (length (ball_cells g c r))) /\
+    length pos = length g /\
+    forall k a x, nth_error g k = Some a -> nth_error c k = Some x ->
+      exists pk, nth_error pos k = Some pk /\ Qabs (pk - x) <= adisc a / 2.
+Proof. exact c01_single. Qed.
+Print Assumptions C01_cartesian_single.
+
+(* several droplets, pairwise separated: (r_i + r_j + hmax)^2 <= |c_i - c_j|^2 with hmax >= every spacing:
+   exactly one candidate per original, each with the volume of the cells it covers and a half-cell centre *)
+Theorem C01_cartesian_emulsion : forall g (ds : list sphere) lab hmax,
+  let img := mk_limage (gshape g) lab in
+  grid_ok g -> nonper g ->
+  (forall d, In d ds -> fits g (fst d) (snd d)) ->
+  (forall d, In d ds -> ball_cells g (fst d) (snd d) <> []) ->
+  0 <= hmax -> Forall (fun a => adisc a <= hmax) g ->
+  (forall i j di dj, nth_error ds i = Some di -> nth_error ds j = Some dj -> i <> j ->
+     (snd di + snd dj + hmax) * (snd di + snd dj + hmax) <= dist2 g (fst di) (fst dj)) ->
+  wf_img g img -> LabelSpecImg img -> mask_is_emulsion g ds img ->
+  num_labels img = length ds /\ length (candidates g lab) = length ds /\
+  exists lbl : nat -> nat,
+    (forall i, (i < length ds)%nat -> (lbl i < length ds)%nat) /\
+    (forall i j, (i < length ds)%nat -> (j < length ds)%nat -> lbl i = lbl j -> i = j) /\
+    forall i d, nth_error ds i = Some d ->
+      exists pos vol, nth_error (candidates g lab) (lbl i) = Some (pos, vol) /\
+        vol == cell_volume g * inject_Z (Z.of_nat (length (ball_cells g (fst d) (snd d)))) /\
+        length pos = length g /\
+        forall k a x, nth_error g k = Some a -> nth_error (fst d) k = Some x ->
+          exists pk, nth_error pos k = Some pk /\ Qabs (pk - x) <= adisc a / 2.
+Proof. exact c01_multi_euclid. Qed.
+Print Assumptions C01_cartesian_emulsion.
+
+(* no candidate is removed when the located spheres do not overlap (D i j >= 0: centre distance minus both radii;
+   the link from the separation hypothesis to D >= 0 goes through cube roots and is a premise) *)
+Theorem C01_no_removal : forall D rad n, (forall i j, i <> j -> 0 <= D i j) -> ro D rad 0 (seq 0 n) = seq 0 n.
+Proof. exact c01_multi_no_removal. Qed.
+Print Assumptions C01_no_removal.
+
+(* one droplet on a grid with ANY mix of periodic axes, centre anywhere (also outside the box along periodic axes),
+   straddling boundaries and corners; pfits: 2 r + 2 h <= L along periodic axes, inside the box along the others:
+   one candidate, exact volume, centre within half a spacing under the periodic metric, position inside the bounds *)
+Theorem C01_cartesian_periodic_single : forall g c r lab,
+  let img := mk_limage (gshape g) lab in
+  grid_ok g -> pfits g c r -> ball_cells g c r <> [] ->
+  wf_img g img -> LabelSpecImg img -> mask_is_ball g c r img ->
+  exists pos vol, candidates g lab = [(pos, vol)] /\
+    vol == cell_volume g * inject_Z (Z.of_nat (length (ball_cells g c r))) /\
+    length pos = length g /\
+    forall k a x, nth_error g k = Some a -> nth_error c k = Some x ->
+      exists pk, nth_error pos k = Some pk /\ Qabs (diff1 a x pk) <= adisc a / 2 /\
+                 (aper a = true -> alo a <= pk /\ pk < ahi a).
+Proof. exact c01_periodic_single. Qed.
+Print Assumptions C01_cartesian_periodic_single.
+
+(* ===== polar / spherical grids: a centred droplet with dr/2 < R <= R_out ===== *)
 Theorem C01_radial : forall r_lo dr R N, 0 <= r_lo -> 0 < dr -> (1 <= N)%nat ->
   r_lo + dr / 2 < R -> R <= r_lo + inject_Z (Z.of_nat N) * dr ->
   exists n, (1 <= n <= N)%nat /\
@@ -28,3 +95,5 @@ Proof.
   split; [apply Qle_refl|]. split; [reflexivity|]. split; [reflexivity|].
   split; [vm_compute; discriminate|vm_compute; reflexivity].
 Qed.
+(* non-vacuity of the Cartesian theorems: Proofs/C01Cart.v c01_single_nonvacuous, c01_multi_nonvacuous,
+   c01_periodic_nonvacuous (concrete grids and droplets satisfying every hypothesis) *)
